@@ -468,6 +468,64 @@ DoAssign(M, lhs, rhs) ==
                ELSE NoteWrites([M1 EXCEPT !.st = StoreMany(@, s.base, s.locs, vals, 1)],
                                SelLocs(s))
 
+\* masked array assignment (WHERE): mask is a sequence of booleans, one per
+\* selected element; only the mask-true elements are evaluated-and-stored
+DoMaskedAssign(M, lhs, rhs, mask) ==
+  LET s == Sel(M, lhs)
+      v == Eval(M, rhs)
+      M1 == NoteReads(M, ExprReads(M, rhs) \cup IdxReads(M, lhs))
+  IN IF ~s.ok \/ IsP(v) \/ s.sh = <<>> \/ Len(s.locs) # Len(mask) THEN Ub(M1)
+     ELSE LET ty == TypeAt(M, s.base)
+              vals == IF IsArr(v) THEN [p \in DOMAIN v.d |-> Conv(ty, v.d[p])]
+                      ELSE [p \in DOMAIN s.locs |-> Conv(ty, v)]
+              conf == IF IsArr(v) THEN v.sh = s.sh ELSE TRUE
+              on == {p \in DOMAIN s.locs : mask[p]}
+              RECURSIVE Put(_, _)
+              Put(st, p) == IF p > Len(s.locs) THEN st
+                            ELSE Put(IF mask[p] THEN StoreAt(st, s.base, s.locs[p], vals[p]) ELSE st, p + 1)
+          IN IF ~conf \/ (\E p \in on : IsP(vals[p])) THEN Ub(M1)
+             ELSE NoteWrites([M1 EXCEPT !.st = Put(@, 1)], {<<s.base, s.locs[p]>> : p \in on})
+
+\* mask value: sequence of booleans, or <<>> with ok = FALSE
+MaskOf(M, e) == LET v == Eval(M, e) IN
+  IF IsP(v) \/ ~IsArr(v) THEN [ok |-> FALSE, m |-> <<>>, sh |-> <<>>]
+  ELSE IF \E p \in DOMAIN v.d : v.d[p].t # "l" THEN [ok |-> FALSE, m |-> <<>>, sh |-> <<>>]
+  ELSE [ok |-> TRUE, m |-> [p \in DOMAIN v.d |-> v.d[p].b], sh |-> v.sh]
+
+RECURSIVE ExecMasked(_, _, _, _)
+ExecMasked(M, ss, i, mask) ==
+  IF M.sig # "" \/ i > Len(ss) THEN M
+  ELSE IF ss[i].k # "assign" THEN Ub(M)
+  ELSE ExecMasked(DoMaskedAssign(M, ss[i].lhs, ss[i].rhs, mask), ss, i + 1, mask)
+
+\* WHERE construct: s.mask, s.body, s.elsewhere = << [mask (expr or none), body] >>
+\* control mask of the k-th ELSEWHERE = not(all earlier masks) and its own mask;
+\* every mask expression is evaluated once, when its block is reached
+RECURSIVE ExecElsewhere(_, _, _, _)
+ExecElsewhere(M, es, k, pending) ==
+  IF M.sig # "" \/ k > Len(es) THEN M
+  ELSE LET e == es[k] IN
+    IF IsNone(e.mask) THEN ExecElsewhere(ExecMasked(M, e.body, 1, pending), es, k + 1,
+                                         [p \in DOMAIN pending |-> FALSE])
+    ELSE LET mk == MaskOf(M, e.mask)
+             M0 == NoteReads(M, ExprReads(M, e.mask)) IN
+         IF ~mk.ok \/ Len(mk.m) # Len(pending) THEN Ub(M0)
+         ELSE ExecElsewhere(ExecMasked(M0, e.body, 1, [p \in DOMAIN pending |-> pending[p] /\ mk.m[p]]),
+                            es, k + 1, [p \in DOMAIN pending |-> pending[p] /\ ~mk.m[p]])
+
+\* SELECT CASE: first case one of whose items matches; item = [lo, hi] (either
+\* may be none: open range) or [v]; default case has dflt = TRUE
+CaseMatches(M, sel, item) ==
+  IF "v" \in DOMAIN item THEN
+     LET x == Eval(M, item.v) IN
+     IF IsP(x) THEN "ub"
+     ELSE IF sel.t = "l" \/ x.t = "l" THEN (IF sel.t = x.t THEN (IF sel.b = x.b THEN "t" ELSE "f") ELSE "ub")
+     ELSE LET r == ScalBin("==", sel, x) IN IF IsP(r) THEN "ub" ELSE IF r.b THEN "t" ELSE "f"
+  ELSE LET lo == IF IsNone(item.lo) THEN sel ELSE Eval(M, item.lo)
+           hi == IF IsNone(item.hi) THEN sel ELSE Eval(M, item.hi)
+           a == ScalBin("<=", lo, sel)  b == ScalBin("<=", sel, hi) IN
+       IF IsP(lo) \/ IsP(hi) \/ IsP(a) \/ IsP(b) THEN "ub" ELSE IF a.b /\ b.b THEN "t" ELSE "f"
+
 CondVal(M, e) == LET v == Eval(M, e) IN
                  IF IsP(v) \/ IsArr(v) THEN "ub" ELSE IF v.t # "l" THEN "ub"
                  ELSE IF v.b THEN "t" ELSE "f"
@@ -633,6 +691,29 @@ ExecStmt(M, s) ==
          IF c = "ub" THEN Ub(M0)
          ELSE IF c = "t" THEN ExecSeq(M0, s.then, 1) ELSE ExecSeq(M0, s.else, 1)
     [] s.k = "while" -> ExecWhile(M, s, 12)
+    [] s.k = "where" ->
+         LET mk == MaskOf(M, s.mask)
+             M0 == NoteReads(M, ExprReads(M, s.mask)) IN
+         IF ~mk.ok THEN Ub(M0)
+         ELSE ExecElsewhere(ExecMasked(M0, s.body, 1, mk.m), s.elsewhere, 1,
+                            [p \in DOMAIN mk.m |-> ~mk.m[p]])
+    [] s.k = "select" ->
+         LET sel == Eval(M, s.sel)
+             M0 == NoteReads(M, ExprReads(M, s.sel))
+             RECURSIVE Pick(_)
+             \* index of the first matching non-default case, 0 = none, -1 = ub
+             Pick(k) == IF k > Len(s.cases) THEN 0
+                        ELSE IF s.cases[k].dflt THEN Pick(k + 1)
+                        ELSE LET rs == {CaseMatches(M, sel, s.cases[k].items[j]) :
+                                          j \in DOMAIN s.cases[k].items} IN
+                             IF "ub" \in rs THEN -1 ELSE IF "t" \in rs THEN k ELSE Pick(k + 1)
+             dfl == {k \in DOMAIN s.cases : s.cases[k].dflt}
+         IN IF IsP(sel) \/ IsArr(sel) THEN Ub(M0)
+            ELSE LET k == Pick(1) IN
+                 IF k = -1 THEN Ub(M0)
+                 ELSE IF k > 0 THEN ExecSeq(M0, s.cases[k].body, 1)
+                 ELSE IF dfl # {} THEN ExecSeq(M0, s.cases[CHOOSE d \in dfl : TRUE].body, 1)
+                 ELSE M0
     [] s.k = "exit" -> [M EXCEPT !.sig = "exit"]
     [] s.k = "cycle" -> [M EXCEPT !.sig = "cycle"]
     [] s.k = "return" -> [M EXCEPT !.sig = "return"]
